@@ -20,16 +20,223 @@ end TddaVerif.Props.C01
 
 namespace TddaVerif.Props.C01.Lemmas
 open TddaVerif.Constraints TddaVerif.Props.C02 TddaVerif.Props.C01
+open TddaVerif.Constraints.DiscAux
+
+/-! ### closure for one column -/
+
+theorem mem_rex (incRex : Bool) (rexOf : List Val → List Nat) (c : Column) (v) :
+    Constraint.rex v ∈ allParts incRex rexOf c ↔ Constraint.rex v ∈ rexPart incRex rexOf c := by
+  rw [mem_allParts]; simp [kind]
+
+theorem nonNull_nil_of_cells (c : Column) (h : c.cells.length = 0) : c.nonNull = [] := by
+  unfold Column.nonNull
+  rw [List.length_eq_zero_iff.mp h]; rfl
+
+theorem str_of_wf (c : Column) (hwf : c.WF = true) (hs : c.ftype = .string) (v : Val)
+    (hv : v ∈ c.nonNull) : ∃ x, v = .s x := by
+  have h2 := wf_allT hwf v hv
+  rw [hs] at h2
+  cases v <;> simp [Val.ftype] at h2
+  exact ⟨_, rfl⟩
+
+/-- the case of a column without rows -/
+theorem closure_empty (cfg : Cfg) (incRex : Bool) (rexOf : List Val → List Nat)
+    (c : Column) (ks : List Constraint) (hn : c.cells.length = 0)
+    (h : discoverField incRex rexOf c 0 = .ok (some ks)) :
+    ∀ k ∈ ks, Sat cfg c k := by
+  intro k hk
+  have hks := C07.Lemmas.nothing_for_absent incRex rexOf c ks h
+  have hnn := nonNull_nil_of_cells c hn
+  subst hks
+  rcases List.mem_cons.mp hk with rfl | hk
+  · simp [Sat]
+  · split at hk
+    · rename_i hc
+      simp only [Bool.and_eq_true, beq_iff_eq] at hc
+      simp only [List.mem_singleton] at hk
+      subst hk
+      simp [Sat, hnn, hc.1]
+    · simp at hk
+
+theorem sat_min (cfg : Cfg) (c : Column) (hwf : c.WF = true) (v : Option Val) (p : Precision)
+    (hk : Constraint.min v p ∈ minPart c) : Sat cfg c (.min v p) := by
+  rw [C07.Lemmas.mem_minPart] at hk
+  obtain ⟨_, _, m, hm, hk⟩ := hk
+  injection hk with hv hp
+  subst hv; subst hp
+  obtain ⟨_, hle⟩ := minOf_spec _ m (wf_allT hwf) hm
+  intro x hx
+  have hl := hle x hx
+  have hco := Order.le_coarse m x hl
+  refine ⟨hco.symm, ?_⟩
+  by_cases hd : m.coarse = .date
+  · simp [hd, hl]
+  · simp [hd, hl]
+
+theorem sat_max (cfg : Cfg) (c : Column) (hwf : c.WF = true) (v : Option Val) (p : Precision)
+    (hk : Constraint.max v p ∈ maxPart c) : Sat cfg c (.max v p) := by
+  rw [C07.Lemmas.mem_maxPart] at hk
+  obtain ⟨_, _, m, hm, hk⟩ := hk
+  injection hk with hv hp
+  subst hv; subst hp
+  obtain ⟨_, hle⟩ := maxOf_spec _ m (wf_allT hwf) hm
+  intro x hx
+  have hl := hle x hx
+  have hco := Order.le_coarse x m hl
+  refine ⟨hco, ?_⟩
+  by_cases hd : m.coarse = .date
+  · simp [hd, hl]
+  · simp [hd, hl]
+
+/-- a sign constraint is only produced for a numeric column with values -/
+theorem signPart_numeric (c : Column) (hwf : c.WF = true) (k : Constraint) (hk : k ∈ signPart c) :
+    c.nonNull ≠ [] ∧ (c.ftype = .bool ∨ c.ftype = .int ∨ c.ftype = .real) := by
+  unfold signPart at hk
+  split at hk
+  · rename_i hc
+    simp only [Bool.and_eq_true, nonStr_iff, bne_iff_ne, ne_eq] at hc
+    obtain ⟨⟨hne, hs⟩, hd⟩ := hc
+    refine ⟨hne, ?_⟩
+    have ho := wf_other hwf
+    cases hft : c.ftype <;> simp_all
+  · simp at hk
 
 theorem closure (cfg : Cfg) (heps : 0 ≤ cfg.epsilon) (incRex : Bool) (rexOf : List Val → List Nat)
     (c : Column) (hwf : c.WF = true) (hrex : RexSound' cfg rexOf c) (ks : List Constraint)
     (h : discoverField incRex rexOf c c.cells.length = .ok (some ks)) (detect : Bool) :
     ∀ k ∈ ks, verifyOn cfg c detect k = true := by
-  sorry
+  intro k hk
+  rw [C02.Lemmas.verify_eq_spec cfg heps c hwf detect k]
+  by_cases hn : c.cells.length = 0
+  · rw [hn] at h
+    exact closure_empty cfg incRex rexOf c ks hn h k hk
+  · have hpos : 0 < c.cells.length := by omega
+    have hks := C07.Lemmas.ks_eq (wf_other hwf) hpos h
+    cases k with
+    | type ts =>
+      have := (C07.Lemmas.type_is_column_type incRex rexOf c _ ks h).2 ts hk
+      subst this
+      simp [Sat]
+    | min v p =>
+      rw [hks, C07.Lemmas.mem_min] at hk
+      exact sat_min cfg c hwf v p hk
+    | max v p =>
+      rw [hks, C07.Lemmas.mem_max] at hk
+      exact sat_max cfg c hwf v p hk
+    | minLength v =>
+      have hl := C07.Lemmas.length_exact incRex rexOf c hwf ks hpos h
+      obtain ⟨m, rfl, _, hall⟩ := hl.1 v hk
+      have hs := (hl.2.2.1.mp ⟨_, hk⟩).1
+      refine ⟨hs, ?_⟩
+      intro x hx y hy
+      subst hy
+      exact Int.ofNat_le.mpr (hall y hx)
+    | maxLength v =>
+      have hl := C07.Lemmas.length_exact incRex rexOf c hwf ks hpos h
+      obtain ⟨m, rfl, _, hall⟩ := hl.2.1 v hk
+      have hs := (hl.2.2.2.mp ⟨_, hk⟩).1
+      refine ⟨hs, ?_⟩
+      intro x hx y hy
+      subst hy
+      exact Int.ofNat_le.mpr (hall y hx)
+    | sign s =>
+      cases s with
+      | none => simp [Sat]
+      | some s =>
+        have hk' := hk
+        rw [hks, C07.Lemmas.mem_sign] at hk'
+        obtain ⟨hne, hnum⟩ := signPart_numeric c hwf _ hk'
+        exact ((C07.Lemmas.sign_strongest incRex rexOf c hwf ks hpos hne hnum h).1 s hk).1
+    | maxNulls v =>
+      obtain ⟨rfl, _⟩ := (C07.Lemmas.maxNulls_iff incRex rexOf c hwf ks hpos h v).mp hk
+      simp [Sat]
+    | noDuplicates v =>
+      obtain ⟨rfl, _, _, hp⟩ := (C07.Lemmas.noDuplicates_iff incRex rexOf c hwf ks hpos h v).mp hk
+      exact hp
+    | allowedValues v =>
+      obtain ⟨_, rfl, _, _⟩ := (C07.Lemmas.allowedValues_iff incRex rexOf c hwf ks hpos h v).mp hk
+      intro x hx
+      exact ⟨x, ((C07.Lemmas.uniques_exact c hwf).1 x).mpr hx, Order.eqv_refl x⟩
+    | rex rs =>
+      rw [hks, mem_rex] at hk
+      unfold rexPart at hk
+      split at hk
+      · rename_i hc
+        simp only [Bool.and_eq_true, beq_iff_eq] at hc
+        simp only [List.mem_singleton] at hk
+        injection hk with hk
+        subst hk
+        refine ⟨hc.1, ?_⟩
+        intro v hv
+        have hne : c.nonNull ≠ [] := List.ne_nil_of_mem hv
+        obtain ⟨x, rfl⟩ := str_of_wf c hwf hc.1 v hv
+        rw [C07.Lemmas.uniqs_string c hc.1 hne]
+        exact ⟨x, rfl, hrex x hv⟩
+      · simp at hk
 
 theorem discover_total (incRex : Bool) (rexOf : List Val → List Nat) (c : Column) (hwf : c.WF = true) :
-    ∃ ks, discoverField incRex rexOf c c.cells.length = .ok (some ks) := by
-  sorry
+    ∃ ks, discoverField incRex rexOf c c.cells.length = .ok (some ks) :=
+  C07.Lemmas.discover_total incRex rexOf c hwf
+
+/-! ### closure for a frame -/
+
+theorem findCol_of_mem : ∀ (frame : List Column), (frame.map (·.name)).Nodup →
+    ∀ c ∈ frame, findCol frame c.name = some c
+  | [], _, c, hc => by cases hc
+  | a :: as, hnd, c, hc => by
+    rw [List.map_cons, List.nodup_cons] at hnd
+    unfold findCol
+    rw [List.find?_cons]
+    rcases List.mem_cons.mp hc with rfl | hc
+    · simp
+    · have hne : (a.name == c.name) = false := by
+        rw [beq_eq_false_iff_ne]
+        intro he
+        exact hnd.1 (he ▸ List.mem_map_of_mem hc)
+      rw [hne]
+      exact findCol_of_mem as hnd.2 c hc
+
+theorem mem_discoverFrame' (incRex : Bool) (rexOf : List Val → List Nat) (frame : List Column)
+    (n : List Char) (ks : List Constraint) (h : (n, ks) ∈ discoverFrame' incRex rexOf frame) :
+    ∃ c ∈ frame, c.name = n ∧ discoverField incRex rexOf c c.cells.length = .ok (some ks) := by
+  unfold discoverFrame' at h
+  rw [List.mem_filterMap] at h
+  obtain ⟨c, hc, he⟩ := h
+  refine ⟨c, hc, ?_⟩
+  split at he
+  · rename_i ks' hd
+    injection he with he
+    injection he with h1 h2
+    subst h2
+    exact ⟨h1, hd⟩
+  · cases he
+
+theorem count_all_true (l : List Bool) (h : ∀ b ∈ l, b = true) :
+    countTrue l = l.length ∧ countFalse l = 0 := by
+  induction l with
+  | nil => exact ⟨rfl, rfl⟩
+  | cons b bs ih =>
+    have hb := h b List.mem_cons_self
+    subst hb
+    have := ih (fun b hb => h b (List.mem_cons_of_mem _ hb))
+    simp [countTrue, countFalse] at this ⊢
+    exact this
+
+theorem verifyAll_all_pass (cfg : Cfg) (frame : List Column) (detect : Bool) :
+    ∀ (cs : List (List Char × List Constraint)),
+      (∀ fc ∈ cs, ∀ k ∈ fc.2, verifyOne cfg frame fc.1 detect k = true) →
+      (verifyAll cfg frame detect cs).failures = 0 ∧
+      (verifyAll cfg frame detect cs).passes = ((cs.map (·.2.length)).sum)
+  | [], _ => by simp [verifyAll]
+  | fc :: cs, hall => by
+    have ih := verifyAll_all_pass cfg frame detect cs (fun fc' h => hall fc' (List.mem_cons_of_mem _ h))
+    have hc := count_all_true (fc.2.map (verifyOne cfg frame fc.1 detect)) (by
+      intro b hb
+      obtain ⟨k, hk, rfl⟩ := List.mem_map.mp hb
+      exact hall fc List.mem_cons_self k hk)
+    simp only [verifyAll, List.map_cons, List.sum_cons, List.map_map] at ih ⊢
+    rw [hc.1, hc.2, List.length_map]
+    exact ⟨by rw [ih.1], by rw [ih.2]⟩
 
 theorem closure_frame (cfg : Cfg) (heps : 0 ≤ cfg.epsilon) (incRex : Bool) (rexOf : List Val → List Nat)
     (frame : List Column) (hwf : ∀ c ∈ frame, c.WF = true) (hnames : (frame.map (·.name)).Nodup)
@@ -38,6 +245,26 @@ theorem closure_frame (cfg : Cfg) (heps : 0 ≤ cfg.epsilon) (incRex : Bool) (re
     (verifyAll cfg frame detect cs).failures = 0 ∧
     (verifyAll cfg frame detect cs).passes = ((cs.map (·.2.length)).sum) ∧
     ∀ c ∈ frame, ∀ ks, (c.name, ks) ∈ cs → ks.filter (fun k => !verifyOn cfg c true k) = [] := by
-  sorry
+  intro cs
+  have hall : ∀ fc ∈ cs, ∀ k ∈ fc.2, verifyOne cfg frame fc.1 detect k = true := by
+    intro fc hfc k hk
+    obtain ⟨c, hc, hname, hd⟩ := mem_discoverFrame' incRex rexOf frame fc.1 fc.2 hfc
+    unfold verifyOne
+    rw [← hname, findCol_of_mem frame hnames c hc]
+    exact closure cfg heps incRex rexOf c (hwf c hc) (hrex c hc) fc.2 hd detect k hk
+  obtain ⟨h1, h2⟩ := verifyAll_all_pass cfg frame detect cs hall
+  refine ⟨h1, h2, ?_⟩
+  intro c hc ks hks
+  obtain ⟨c', hc', hname, hd⟩ := mem_discoverFrame' incRex rexOf frame c.name ks hks
+  have heq : c' = c := by
+    have e1 := findCol_of_mem frame hnames c' hc'
+    have e2 := findCol_of_mem frame hnames c hc
+    rw [hname, e2] at e1
+    injection e1 with e1
+    exact e1.symm
+  subst heq
+  rw [List.filter_eq_nil_iff]
+  intro k hk
+  simp [closure cfg heps incRex rexOf c' (hwf c' hc') (hrex c' hc') ks hd true k hk]
 
 end TddaVerif.Props.C01.Lemmas
